@@ -287,9 +287,10 @@ func c09Hint(c *core.Ctx, k c09Case) {
 }
 
 // metadata field order of c09Case.Fields, per layout:
-//   s: proto ts sid seq status plen slen
-//   d: proto ts sid seq unack win frag pre plen slen
-//   l: proto mode ts sid seq unack win frag pre plen slen mask elen rot
+//
+//	s: proto ts sid seq status plen slen
+//	d: proto ts sid seq unack win frag pre plen slen
+//	l: proto mode ts sid seq unack win frag pre plen slen mask elen rot
 func metaSpecOf(layout string, f []uint32) string {
 	s := make([]string, len(f))
 	for i, v := range f {
@@ -375,10 +376,16 @@ func realUnmarshal(layout string, b []byte) (string, []uint32, error) {
 }
 
 func nowMinute() (uint32, bool) {
-	t := time.Now()
-	// stable = not within 2 s of a minute tick (the code reads its own clock a little later)
-	s := t.Unix() % 60
-	return uint32(t.Unix() / 60), s >= 2 && s <= 57
+	// stable = not within 2 s of a minute tick (the code reads its own clock a little later).
+	// Rather than skipping the comparison, wait for the tick to pass (at most ~5 s per run).
+	for i := 0; i < 80; i++ {
+		t := time.Now()
+		if s := t.Unix() % 60; s >= 2 && s <= 57 {
+			return uint32(t.Unix() / 60), true
+		}
+		time.Sleep(100 * time.Millisecond)
+	}
+	return uint32(time.Now().Unix() / 60), false
 }
 
 func c09Meta(c *core.Ctx, k c09Case) {
